@@ -11,14 +11,18 @@ from . import tlc
 from .frontends import c2s, s2c
 from .pool import pmap
 
-TITLES = [("a", 1), ("a", 2), ("a-1", 1), ("b", 2), ("A b", 3)]
-TARGETS = ["x", "a", "Tt"]
-LINKS = ([(n, "text") for n in ("a", "a-1", "a-2", "a-1-1", "b", "a-b", "x", "zz", "A", "X", "tt", "Tt")]
-         + [(n, "empty") for n in ("a", "x", "zz", "b", "Tt", "a-1")])
+TITLES = [("a", 1), ("a", 2), ("a-1", 1), ("b", 2), ("A b", 3), ("É x", 2)]
+TARGETS = [("x", "next"), ("a", "next"), ("Tt", "next"), ("w", "quote")]
+LINKS = ([(n, "text") for n in ("a", "a-1", "a-2", "a-1-1", "b", "a-b", "x", "zz", "A", "X", "tt", "Tt", "é-x", "w")]
+         + [(n, "empty") for n in ("a", "x", "zz", "b", "Tt", "a-1", "w", "é-x")]
+         + [(n, "auto") for n in ("a", "x", "é-x", "zz", "w")])
+
+
+REV_LINKS = [(n, f) for n in ("a", "1-a", "b", "b A", "B a", "x", "zz") for f in ("text", "empty")]
 
 
 def vocab():
-    return [["h", s2c(t), lv] for t, lv in TITLES] + [["t", s2c(n)] for n in TARGETS]
+    return [["h", s2c(t), lv] for t, lv in TITLES] + [["t", s2c(n), f] for n, f in TARGETS]
 
 
 def consts(maxitems, depths, slugfn="default", dev_suffix=False, dev_case=False, dev_nostrip=False):
@@ -44,12 +48,14 @@ def doc_text(items, links, wrap="none"):
             lines += ["#" * it[2] + " " + it[1], ""]
         else:
             lines.append(f"({it[1]})=")
-            if not (n + 1 < len(items) and items[n + 1][0] == "h"):
+            if len(it) > 2 and it[2] == "quote":
+                lines += ["> ```{admonition} Inner title", f"> Q{n + 1}", "> ```", ""]
+            elif not (n + 1 < len(items) and items[n + 1][0] == "h"):
                 lines += [f"P{n + 1}", ""]
     block = []
     for k, (name, form) in enumerate(links):
         dest = f"<#{name}>" if (" " in name or any(ord(c) > 127 for c in name)) else f"#{name}"
-        block += [f"[L{k + 1}]({dest})" if form == "text" else f"[]({dest})", ""]
+        block += [f"[L{k + 1}]({dest})" if form == "text" else (f"<project:#{name}>" if form == "auto" else f"[]({dest})"), ""]
     if wrap == "quote":
         block = [("> " + b) if b else ">" for b in block] + [""]
     elif wrap == "list":
@@ -68,9 +74,9 @@ def doc_text(items, links, wrap="none"):
             if k not in link_lines and ((form == "text" and f"[L{k}](" in ln)):
                 link_lines[k] = n
     # empty-text links: by order among the remaining link lines
-    rest = [n for n, ln in enumerate(lines, 1) if n > start and "[](" in ln]
+    rest = [n for n, ln in enumerate(lines, 1) if n > start and ("[](" in ln or "<project:#" in ln)]
     for k, (name, form) in enumerate(links, 1):
-        if form == "empty":
+        if form != "text":
             link_lines[k] = rest.pop(0)
     return text, link_lines
 
@@ -203,12 +209,13 @@ def t_leg(ctx, quick):
         rec["slug_func"] = "default"
     recs += r.records
     for fn in ("reverse", "raise"):
-        r = tlc.run("Anchors", tlc.cfg(ctx, f"an_{fn}.cfg", consts(2 if quick else 3, [0, 2], slugfn=fn), invariants=INVS + ["Emit"],
-                                       constraints=["NoDupTargets"]), wd=ctx.wd, timeout=3000, defs=defs())
+        r = tlc.run("Anchors", tlc.cfg(ctx, f"an_{fn}.cfg", consts(2 if quick else 3, [0, 3], slugfn=fn), invariants=INVS + ["Emit"],
+                                       constraints=["NoDupTargets"]), wd=ctx.wd, timeout=3000, defs=defs(links=REV_LINKS))
         tlc.expect_holds(r, f"Anchors[{fn}] M |= S")
         ctx.add_tlc(f"Anchors_{fn}", r, f"heading_slug_func = {fn}")
         for rec in r.records:
             rec["slug_func"] = fn
+            rec["links"] = REV_LINKS
         recs += r.records
     r = tlc.run("Anchors", tlc.cfg(ctx, "an_cov.cfg", consts(2, [1]), invariants=INVS, constraints=["NoDupTargets"]),
                 wd=ctx.wd, coverage=True, defs=defs())
@@ -245,7 +252,7 @@ def random_case(rnd, tid):
         else:
             nm = rnd.choice(["x", "tgt", "Mixed", "a", "title", "b-1", "k" + str(len(items))])
             if not any(it[0] == "t" and it[1].lower() == nm.lower() for it in items):
-                items.append(["t", nm])
+                items.append(["t", nm, rnd.choice(["next", "next", "quote"])])
     depth = rnd.choice([0, 1, 2, 3, 4, 7])
     return {"id": tid, "items": items, "depth": depth, "wrap": rnd.choice(["none", "none", "quote", "list", "note"])}
 
@@ -291,7 +298,7 @@ def v_case(case):
     names |= {it[1] for it in items if it[0] == "t"} | {it[1].upper() for it in items if it[0] == "t"} | {"nosuch"}
     names = sorted(n for n in names if n and all(c not in n for c in "<>()[]\\`*\n"))
     rnd.shuffle(names)
-    links = [(n, rnd.choice(["text", "empty"])) for n in names[:10]]
+    links = [(n, rnd.choice(["text", "empty"] + ([] if " " in n else ["auto"]))) for n in names[:10]]
     text, link_lines = doc_text(items, links, case["wrap"])
     try:
         o = observe(text, case["depth"], aitems, links)
